@@ -289,7 +289,7 @@ func codecTag(r *codecRun) string {
 			return "lone-empty-field"
 		}
 	case "props":
-		isKey := len(r.c.JSON) > 0 && !strings.HasPrefix(runesOf(r.c.JSON), `{"k1":`)
+		isKey := len(r.c.JSON) > 0 && (!strings.HasPrefix(runesOf(r.c.JSON), `{"k1":`) || strings.HasPrefix(runesOf(r.c.JSON), `{"k1":"a", "k2":"a", `)) // the probe is a key (first, or third after k1 and k2)
 		if !isKey && (strings.HasPrefix(probe, " ") || strings.HasPrefix(probe, "\t")) {
 			return "value-leading-blank"
 		}
